@@ -37,7 +37,7 @@ TRUSTED_BASE = [
 ]
 
 
-class Timeout(Exception):
+class Timeout(BaseException):
     pass
 
 
